@@ -96,11 +96,16 @@ func famSesReent(t *testing.T, r *Rec) {
 					if ev == "upgrade" || ev == "upgrading" {
 						r.Violate("C08", "C08/upgrade-listener/"+fault+"/"+ev+"/"+act, "a candidate that followed the protocol did not complete the switch: "+what, lines)
 					}
+					if act != "send" {
+						// the close the listener asked for never completed: no close event, and the session stays in the client table
+						r.Violate("C04", "C04/close-from-listener-never-completes/"+ev+"/"+act+"/"+tr, "the session a '"+ev+"' listener closed is stuck half-closed (the server "+fault+"): it never leaves the client table", lines)
+						r.Violate("C03", "C03/close-from-listener-never-completes/"+ev+"/"+act+"/"+tr, "the session a '"+ev+"' listener closed never emitted its close event (the server "+fault+")", lines)
+					}
 					continue
 				}
 				// what the session and its client saw
 				closes, reacted := 0, false
-				var state string
+				var state, reg string
 				for _, out := range outs {
 					if out == "-" || out == "ok" {
 						continue
@@ -130,6 +135,12 @@ func famSesReent(t *testing.T, r *Rec) {
 					if st, ok := o.states[0]; ok {
 						state = st[0]
 					}
+					if o.reg != "" {
+						reg = o.reg
+					}
+				}
+				if state == "closed" && !strings.HasPrefix(reg, "-") {
+					r.Violate("C04", "C04/closed-session-still-registered/close-from-listener/"+ev+"/"+act+"/"+tr, fmt.Sprintf("a '%s' listener called %s: the session is closed and the client table still reads %s", ev, act, reg), lines)
 				}
 				switch {
 				case act == "send" && ev != "close" && !reacted:
